@@ -5,6 +5,7 @@
 -/
 import AnthemModel.Proofs.CompletionSem
 import AnthemModel.Model.External
+import AnthemModel.Props.C11
 namespace Anthem
 open Asp
 
@@ -404,5 +405,619 @@ theorem replacePlaceholders_nil : ∀ F : Formula, F.replacePlaceholders [] = F 
   | not f ih => simp [Formula.replacePlaceholders, ih]
   | bin c l r ihl ihr => simp [Formula.replacePlaceholders, ihl, ihr]
   | quant q vs f ih => simp [Formula.replacePlaceholders, ih]
+
+/-! ## `control_translate` -/
+
+theorem controlStep_mono (pub : List Pred) : ∀ (l : Theory) (st : Specification × Nat),
+    ∀ a ∈ st.1, a ∈ (l.foldl (controlStep pub) st).1 := by
+  intro l
+  induction l with
+  | nil => intro st a ha; exact ha
+  | cons g l ihl =>
+    intro st a ha
+    simp only [List.foldl_cons]
+    apply ihl
+    unfold controlStep
+    split
+    · split <;> exact List.mem_append_left _ ha
+    · exact List.mem_append_left _ ha
+
+theorem controlTranslate_fold (pub : List Pred) : ∀ (th : Theory) (init : Specification × Nat),
+    (∀ f ∈ th, ∃ a ∈ (th.foldl (controlStep pub) init).1, a.formula = f ∧ a.direction = .universal ∧
+      (a.role = .spec ∨ a.role = .assumption)) ∧
+    (∀ a ∈ (th.foldl (controlStep pub) init).1, a ∈ init.1 ∨
+      (a.formula ∈ th ∧ a.direction = .universal ∧ (a.role = .spec ∨ a.role = .assumption))) := by
+  intro th
+  induction th with
+  | nil =>
+    intro init
+    exact ⟨fun f hf => (by cases hf), fun a ha => Or.inl ha⟩
+  | cons f th ih =>
+    intro init
+    simp only [List.foldl_cons]
+    obtain ⟨ih2, ih3⟩ := ih (controlStep pub init f)
+    have hstep : ∃ a, (controlStep pub init f).1 = init.1 ++ [a] ∧ a.formula = f ∧ a.direction = .universal ∧
+        (a.role = .spec ∨ a.role = .assumption) := by
+      unfold controlStep
+      split
+      · split
+        · exact ⟨_, rfl, rfl, rfl, Or.inl rfl⟩
+        · exact ⟨_, rfl, rfl, rfl, Or.inr rfl⟩
+      · exact ⟨_, rfl, rfl, rfl, Or.inl rfl⟩
+    obtain ⟨a0, ha0, hf0, hd0, hr0⟩ := hstep
+    refine ⟨?_, ?_⟩
+    · intro g hg
+      rcases List.mem_cons.mp hg with rfl | hg
+      · exact ⟨a0, controlStep_mono pub th _ a0 (by rw [ha0]; simp), hf0, hd0, hr0⟩
+      · exact ih2 g hg
+    · intro a ha
+      rcases ih3 a ha with h | ⟨h1, h2, h3⟩
+      · rw [ha0] at h
+        rcases List.mem_append.mp h with h | h
+        · exact Or.inl h
+        · simp only [List.mem_singleton] at h; subst h
+          exact Or.inr ⟨by rw [hf0]; exact List.mem_cons_self, hd0, hr0⟩
+      · exact Or.inr ⟨List.mem_cons_of_mem _ h1, h2, h3⟩
+
+/-- every formula of the theory appears once in `control_translate`'s output, as a universal `spec`
+    or `assumption`, and nothing else appears -/
+theorem controlTranslate_spec (pub : List Pred) (th : Theory) :
+    (∀ a ∈ controlTranslate pub th, a.formula ∈ th ∧ a.direction = .universal ∧ (a.role = .spec ∨ a.role = .assumption)) ∧
+    (∀ f ∈ th, ∃ a ∈ controlTranslate pub th, a.formula = f) := by
+  obtain ⟨h2, h3⟩ := controlTranslate_fold pub th ([], 0)
+  refine ⟨fun a ha => ?_, fun f hf => ?_⟩
+  · rcases h3 a ha with h | h
+    · cases h
+    · exact h
+  · obtain ⟨a, ha, hf', _⟩ := h2 f hf
+    exact ⟨a, ha, hf'⟩
+
+/-! ## `assemble` on universal specs and assumptions -/
+
+def isAss (a : SAnn) : Bool := a.role = .assumption
+def isSpec (a : SAnn) : Bool := a.role = .spec
+
+def UnivSA (l : List SAnn) : Prop := ∀ a ∈ l, a.direction = .universal ∧ (a.role = .spec ∨ a.role = .assumption)
+
+theorem foldl_stepL (brk : Bool) : ∀ (l : List SAnn) (s : Assembled), UnivSA l →
+    l.foldl (assembleStepL brk) (.ok s) = .ok { s with
+      stable := s.stable ++ (l.filter isAss).map (·.toProblem .axiom),
+      fwdPremises := s.fwdPremises ++ (l.filter isSpec).map (·.toProblem .axiom),
+      bwdConclusions := s.bwdConclusions ++ (l.filter isSpec).flatMap (conjOf brk) } := by
+  intro l
+  induction l with
+  | nil => intro s _; simp
+  | cons a l ih =>
+    intro s h
+    obtain ⟨hd, hr⟩ := h a List.mem_cons_self
+    have hl : UnivSA l := fun x hx => h x (List.mem_cons_of_mem _ hx)
+    simp only [List.foldl_cons]
+    rcases hr with hr | hr
+    · have e : assembleStepL brk (.ok s) a = .ok { s with
+          fwdPremises := s.fwdPremises ++ [a.toProblem .axiom],
+          bwdConclusions := s.bwdConclusions ++ conjOf brk a } := by
+        simp [assembleStepL, hr, hd]
+      rw [e, ih _ hl]
+      simp [isAss, isSpec, hr, List.filter_cons, List.append_assoc]
+    · have e : assembleStepL brk (.ok s) a = .ok { s with stable := s.stable ++ [a.toProblem .axiom] } := by
+        simp [assembleStepL, hr, hd]
+      rw [e, ih _ hl]
+      simp [isAss, isSpec, hr, List.filter_cons, List.append_assoc]
+
+theorem foldl_stepR (brk : Bool) : ∀ (l : List SAnn) (s : Assembled), UnivSA l →
+    l.foldl (assembleStepR brk) (.ok s) = .ok { s with
+      stable := s.stable ++ (l.filter isAss).map (·.toProblem .axiom),
+      bwdPremises := s.bwdPremises ++ (l.filter isSpec).map (·.toProblem .axiom),
+      fwdConclusions := s.fwdConclusions ++ (l.filter isSpec).flatMap (conjOf brk) } := by
+  intro l
+  induction l with
+  | nil => intro s _; simp
+  | cons a l ih =>
+    intro s h
+    obtain ⟨hd, hr⟩ := h a List.mem_cons_self
+    have hl : UnivSA l := fun x hx => h x (List.mem_cons_of_mem _ hx)
+    simp only [List.foldl_cons]
+    rcases hr with hr | hr
+    · have e : assembleStepR brk (.ok s) a = .ok { s with
+          bwdPremises := s.bwdPremises ++ [a.toProblem .axiom],
+          fwdConclusions := s.fwdConclusions ++ conjOf brk a } := by
+        simp [assembleStepR, hr, hd]
+      rw [e, ih _ hl]
+      simp [isAss, isSpec, hr, List.filter_cons, List.append_assoc]
+    · have e : assembleStepR brk (.ok s) a = .ok { s with stable := s.stable ++ [a.toProblem .axiom] } := by
+        simp [assembleStepR, hr, hd]
+      rw [e, ih _ hl]
+      simp [isAss, isSpec, hr, List.filter_cons, List.append_assoc]
+
+theorem assemble_ok (left right ug : List SAnn) (brk : Bool) (hl : UnivSA left) (hr : UnivSA right) :
+    assemble left right ug brk = .ok {
+      stable := ug.map (·.toProblem .axiom) ++ (left.filter isAss).map (·.toProblem .axiom) ++
+        (right.filter isAss).map (·.toProblem .axiom),
+      fwdPremises := (left.filter isSpec).map (·.toProblem .axiom),
+      fwdConclusions := (right.filter isSpec).flatMap (conjOf brk),
+      bwdPremises := (right.filter isSpec).map (·.toProblem .axiom),
+      bwdConclusions := (left.filter isSpec).flatMap (conjOf brk) } := by
+  unfold assemble
+  simp only
+  rw [foldl_stepL brk left _ hl, foldl_stepR brk right _ hr]
+  simp
+
+/-! ## `mkProblem` and the conjectures of a formula -/
+
+def mkProblem0 (name : String) (parts : List (List AnnF)) : Problem :=
+  parts.foldl (fun (p : Problem) fs => p.addAnnotated fs) ⟨name, []⟩
+
+theorem mkProblem_eq (name : String) (parts : List (List AnnF)) :
+    mkProblem name parts = (mkProblem0 name parts).renameConflictingSymbols.uniqueNames := rfl
+
+theorem mkProblem0_role_forall (name : String) (role : PRole) (Q : Formula → Prop) : ∀ (parts : List (List AnnF)) (p : Problem),
+    (∀ a ∈ (parts.foldl (fun (p : Problem) fs => p.addAnnotated fs) p).formulas, a.role = role → Q a.formula) ↔
+      (∀ a ∈ p.formulas, a.role = role → Q a.formula) ∧ ∀ part ∈ parts, ∀ a ∈ part, a.role = role → Q a.formula := by
+  intro parts
+  induction parts with
+  | nil => intro p; simp
+  | cons part parts ih =>
+    intro p
+    simp only [List.foldl_cons, ih, List.forall_mem_cons]
+    have : (∀ a ∈ (p.addAnnotated part).formulas, a.role = role → Q a.formula) ↔
+        (∀ a ∈ p.formulas, a.role = role → Q a.formula) ∧ ∀ a ∈ part, a.role = role → Q a.formula := by
+      unfold Problem.addAnnotated
+      simp only [List.mem_append, List.mem_map]
+      constructor
+      · intro h
+        exact ⟨fun a ha => h a (Or.inl ha), fun a ha => h { a with name := fixName a.name } (Or.inr ⟨a, ha, rfl⟩)⟩
+      · rintro ⟨h1, h2⟩ a (ha | ⟨a0, ha0, rfl⟩)
+        · exact h1 a ha
+        · exact h2 a0 ha0
+    rw [this, and_assoc]
+
+theorem mk_refutes (J : Interp) (ρ : Asg) (name : String) (parts : List (List AnnF)) (d : Decomposition)
+    (hnc : (mkProblem0 name parts).renameConflictingSymbols = mkProblem0 name parts) :
+    (∃ P ∈ (mkProblem name parts).decompose d, Refutes J ρ P) ↔
+      (∀ part ∈ parts, ∀ a ∈ part, a.role = .axiom → sat J a.formula ρ) ∧
+      ¬ ∀ part ∈ parts, ∀ a ∈ part, a.role = .conjecture → sat J a.formula ρ := by
+  have key : (∃ P ∈ (mkProblem name parts).decompose d, Refutes J ρ P) ↔
+      (∀ a ∈ (mkProblem name parts).axioms, sat J a.formula ρ) ∧
+      ∃ c ∈ (mkProblem name parts).conjectures, ¬ sat J c.formula ρ := by
+    cases d
+    · exact C19.independent_refutes J ρ _
+    · exact C19.sequential_refutes J ρ _
+  rw [key]
+  have hall : ∀ role, (∀ a ∈ (mkProblem name parts).formulas, a.role = role → sat J a.formula ρ) ↔
+      ∀ part ∈ parts, ∀ a ∈ part, a.role = role → sat J a.formula ρ := by
+    intro role
+    rw [mkProblem_eq, hnc]
+    refine (uniqueNames_role_forall (mkProblem0 name parts) role (fun F => sat J F ρ)).trans ?_
+    unfold mkProblem0
+    rw [mkProblem0_role_forall name role (fun F => sat J F ρ) parts ⟨name, []⟩]
+    simp
+  have hax : (∀ a ∈ (mkProblem name parts).axioms, sat J a.formula ρ) ↔
+      ∀ part ∈ parts, ∀ a ∈ part, a.role = .axiom → sat J a.formula ρ := by
+    rw [← hall .axiom]
+    simp only [Problem.axioms, List.mem_filter, decide_eq_true_eq, and_imp]
+  have hcj : (∃ c ∈ (mkProblem name parts).conjectures, ¬ sat J c.formula ρ) ↔
+      ¬ ∀ part ∈ parts, ∀ a ∈ part, a.role = .conjecture → sat J a.formula ρ := by
+    rw [← hall .conjecture]
+    simp only [Problem.conjectures, List.mem_filter, decide_eq_true_eq]
+    constructor
+    · rintro ⟨c, ⟨hc, hr⟩, hn⟩ hall'; exact hn (hall' c hc hr)
+    · intro hn
+      refine Classical.byContradiction fun hne => hn fun a ha hr => ?_
+      exact Classical.byContradiction fun hs => hne ⟨a, ⟨ha, hr⟩, hs⟩
+  rw [hax, hcj]
+
+theorem conjOf_sem (J : Interp) (ρ : Asg) (brk : Bool) (a : SAnn) :
+    (∀ c ∈ conjOf brk a, c.role = .conjecture) ∧
+    ((∀ c ∈ conjOf brk a, sat J c.formula ρ) ↔ sat J a.formula ρ) := by
+  unfold conjOf
+  cases brk with
+  | false =>
+    simp only [Bool.false_eq_true, if_false, List.mem_singleton, forall_eq]
+    exact ⟨rfl, Iff.rfl⟩
+  | true =>
+    simp only [if_true, List.mem_map, forall_exists_index, and_imp, forall_apply_eq_imp_iff₂]
+    refine ⟨fun _ _ => rfl, ?_⟩
+    rw [← break_equiv J a.formula ρ]
+    unfold breakAnnotated
+    simp only [List.mem_map, Prod.exists, forall_exists_index, and_imp]
+    constructor
+    · intro h G hG
+      obtain ⟨i, hi⟩ := (mem_indexFrom (k := 0)).mp hG
+      exact h _ i G hi rfl
+    · rintro h x i G hi rfl
+      exact h G ((mem_indexFrom (k := 0)).mpr ⟨i, hi⟩)
+
+/-! ## the pipeline for a task that compares two programs, without placeholders and outline -/
+
+theorem theoryTranslate_ok (t : ExternalTask) (fuel : Nat) (p : Program) (th : Theory)
+    (h : theoryTranslate t [] fuel p = .ok th) :
+    globalsPanic p = false ∧ ∃ Γ, completion (tauStar p) t.userGuide.inputs = some Γ ∧
+      ∀ (J : Interp) (ρ : Asg), (∀ F ∈ th, sat J F ρ) ↔ ∀ F ∈ Γ, sat J F ρ := by
+  unfold theoryTranslate at h
+  split at h
+  · cases h
+  · rename_i hp
+    have hmap : (tauStar p).map (Formula.replacePlaceholders []) = tauStar p := by
+      conv => rhs; rw [← List.map_id (tauStar p)]
+      exact List.map_congr_left fun F _ => replacePlaceholders_nil F
+    simp only [hmap] at h
+    refine ⟨by simpa using hp, ?_⟩
+    cases hc : completion (tauStar p) t.userGuide.inputs with
+    | none => simp [hc] at h
+    | some Γ =>
+      simp only [hc] at h
+      refine ⟨Γ, rfl, fun J ρ => ?_⟩
+      split at h
+      · cases hs : simplifyTheory .classic fuel Γ with
+        | none => simp [hs] at h
+        | some th' =>
+          simp only [hs] at h
+          injection h with h
+          subst h
+          rw [simplifyTheory_some hs, allTrue_simplify_classic]
+      · injection h with h
+        subst h
+        exact Iff.rfl
+
+theorem ugAss_fold (ug : UserGuide) : ∀ (l : List SAnn) (acc : List SAnn) (res : List SAnn),
+    l.foldl (ugAssStep ug []) (.ok acc) = .ok res → res = acc ++ l.filter (fun f => f.role = .assumption) := by
+  intro l
+  induction l with
+  | nil => intro acc res h; simp at h; simp [h]
+  | cons f l ih =>
+    intro acc res h
+    simp only [List.foldl_cons] at h
+    have habs : ∀ (l : List SAnn) (e : TaskError), l.foldl (ugAssStep ug []) (.err e) = .err e := by
+      intro l
+      induction l with
+      | nil => intro e; rfl
+      | cons g l ihl => intro e; simp only [List.foldl_cons]; exact ihl e
+    by_cases hr : f.role = .assumption
+    · by_cases hany : f.formula.preds.any (· ∈ ug.outputs) = true
+      · have : ugAssStep ug [] (.ok acc) f = .err .outputPredicateInUserGuideAssumption := by
+          simp [ugAssStep, hr, hany]
+        rw [this, habs] at h; cases h
+      · have hf : f.replacePlaceholders [] = f := by
+          cases f; simp [SAnn.replacePlaceholders, replacePlaceholders_nil]
+        have : ugAssStep ug [] (.ok acc) f = .ok (acc ++ [f]) := by
+          simp [ugAssStep, hr, hany, hf]
+        rw [this] at h
+        rw [ih _ _ h]
+        simp [List.filter_cons, hr]
+    · have : ugAssStep ug [] (.ok acc) f = .ok acc := by simp [ugAssStep, hr]
+      rw [this] at h
+      rw [ih _ _ h]
+      simp [List.filter_cons, hr]
+
+@[simp] theorem Outcome.ok_bind {α β} (a : α) (f : α → Outcome β) : (Outcome.ok a >>= f) = f a := rfl
+@[simp] theorem Outcome.err_bind {α β} (e : TaskError) (f : α → Outcome β) : (Outcome.err e >>= f) = .err e := rfl
+@[simp] theorem Outcome.panic_bind {α β} (s : String) (f : α → Outcome β) : (Outcome.panic s >>= f) = .panic s := rfl
+@[simp] theorem Outcome.timeout_bind {α β} (f : α → Outcome β) : (Outcome.timeout >>= f) = .timeout := rfl
+@[simp] theorem Outcome.pure_eq {α} (a : α) : (pure a : Outcome α) = .ok a := rfl
+
+/-- the program side after `control_translate` and renaming of clashing private predicates -/
+def rightSide (t : ExternalTask) (ΓR : Theory) : List SAnn :=
+  (controlTranslate t.userGuide.publicPreds ΓR).map fun a =>
+    { a with formula := a.formula.renamePreds (t.specPrivate.filter (· ∈ t.progPrivate)) }
+
+/-- what `assemble` yields for two translated programs -/
+def assembledPrograms (t : ExternalTask) (ΓL ΓR : Theory) : Assembled :=
+  let left := controlTranslate t.userGuide.publicPreds ΓL
+  let right := rightSide t ΓR
+  let ug := t.userGuide.formulas.filter fun f => f.role = .assumption
+  { stable := ug.map (·.toProblem .axiom) ++ (left.filter isAss).map (·.toProblem .axiom) ++
+      (right.filter isAss).map (·.toProblem .axiom),
+    fwdPremises := (left.filter isSpec).map (·.toProblem .axiom),
+    fwdConclusions := (right.filter isSpec).flatMap (conjOf t.breakEq),
+    bwdPremises := (right.filter isSpec).map (·.toProblem .axiom),
+    bwdConclusions := (left.filter isSpec).flatMap (conjOf t.breakEq) }
+
+theorem rightSide_univ (t : ExternalTask) (ΓR : Theory) : UnivSA (rightSide t ΓR) := by
+  intro a ha
+  obtain ⟨a0, ha0, rfl⟩ := List.mem_map.mp ha
+  exact ((controlTranslate_spec _ ΓR).1 a0 ha0).2
+
+theorem externalProblems_programs (t : ExternalTask) (PL : Program) (hspec : t.specification = .inl PL)
+    (hph : t.userGuide.placeholders = []) (hpo : t.proofOutline = []) (fuel : Nat) (ps : List Problem)
+    (h : externalProblems t fuel = .ok ps) :
+    precheck t = none ∧ ∃ ΓL ΓR, theoryTranslate t [] fuel PL = .ok ΓL ∧ theoryTranslate t [] fuel t.program = .ok ΓR ∧
+      ps = assembledProblems (assembledPrograms t ΓL ΓR) {} t.decomposition t.direction := by
+  unfold externalProblems at h
+  cases hpre : precheck t with
+  | some e => simp [hpre] at h
+  | none =>
+    refine ⟨rfl, ?_⟩
+    simp only [hpre, hspec, hph, hpo] at h
+    have hm : mkPlaceholderMap [] = [] := rfl
+    simp only [hm] at h
+    cases hL : theoryTranslate t [] fuel PL with
+    | err e => simp [hL] at h
+    | panic s => simp [hL] at h
+    | timeout => simp [hL] at h
+    | ok ΓL =>
+      cases hR : theoryTranslate t [] fuel t.program with
+      | err e => simp [hL, hR] at h
+      | panic s => simp [hL, hR] at h
+      | timeout => simp [hL, hR] at h
+      | ok ΓR =>
+        refine ⟨ΓL, ΓR, rfl, rfl, ?_⟩
+        simp only [hL, hR, Outcome.ok_bind, Outcome.pure_eq] at h
+        -- the user-guide assumptions
+        cases hU : t.userGuide.formulas.foldl (ugAssStep t.userGuide []) (.ok []) with
+        | err e => simp [hU] at h
+        | panic s => simp [hU] at h
+        | timeout => simp [hU] at h
+        | ok ugAss =>
+          have hug := ugAss_fold t.userGuide _ [] ugAss hU
+          simp only [List.nil_append] at hug
+          simp only [hU, Outcome.ok_bind] at h
+          have hpoF : ∀ taken, proofOutlineFrom [] taken [] = .ok {} := fun _ => rfl
+          simp only [hpoF, Outcome.ok_bind] at h
+          have hasm := assemble_ok (controlTranslate t.userGuide.publicPreds ΓL) (rightSide t ΓR) ugAss t.breakEq
+            (fun a ha => ((controlTranslate_spec _ ΓL).1 a ha).2) (rightSide_univ t ΓR)
+          unfold rightSide at hasm
+          simp only [hasm, Outcome.ok_bind] at h
+          injection h with h
+          rw [← h, hug]
+          rfl
+
+theorem precheck_programs (t : ExternalTask) (PL : Program) (hspec : t.specification = .inl PL)
+    (h : precheck t = none) :
+    programError t t.program t.progPrivate = none ∧ programError t PL t.specPrivate = none := by
+  unfold precheck at h
+  simp only [hspec] at h
+  split at h
+  · cases h
+  · split at h
+    · cases h
+    · cases hP : programError t t.program t.progPrivate with
+      | some e => simp [hP] at h
+      | none =>
+        simp only [hP] at h
+        split at h
+        · cases h
+        · cases hA : assumptionError t [] t.userGuide.formulas with
+          | some e => simp [hA] at h
+          | none =>
+            simp only [hA] at h
+            exact ⟨rfl, h⟩
+
+/-- the specification side after `control_translate` -/
+def leftSide (t : ExternalTask) (ΓL : Theory) : List SAnn := controlTranslate t.userGuide.publicPreds ΓL
+
+/-- `rename_conflicting_symbols` leaves the two assembled problems unchanged -/
+def NoSymbolConflictExt (t : ExternalTask) (ΓL ΓR : Theory) : Prop :=
+  let a := assembledPrograms t ΓL ΓR
+  (mkProblem0 "forward_problem" [a.stable, a.fwdPremises, [], a.fwdConclusions]).renameConflictingSymbols =
+    mkProblem0 "forward_problem" [a.stable, a.fwdPremises, [], a.fwdConclusions] ∧
+  (mkProblem0 "backward_problem" [a.stable, a.bwdPremises, [], a.bwdConclusions]).renameConflictingSymbols =
+    mkProblem0 "backward_problem" [a.stable, a.bwdPremises, [], a.bwdConclusions]
+
+theorem side_allTrue (J : Interp) (ρ : Asg) (l : List SAnn) (hu : UnivSA l) :
+    (∀ a ∈ l, sat J a.formula ρ) ↔
+      (∀ a ∈ l, a.role = .assumption → sat J a.formula ρ) ∧ (∀ a ∈ l, a.role = .spec → sat J a.formula ρ) := by
+  constructor
+  · intro h; exact ⟨fun a ha _ => h a ha, fun a ha _ => h a ha⟩
+  · rintro ⟨h1, h2⟩ a ha
+    rcases (hu a ha).2 with hr | hr
+    · exact h2 a ha hr
+    · exact h1 a ha hr
+
+/-- **C02, restricted form**: a task that compares two programs (no placeholders, no proof outline,
+    tightness not bypassed). Some emitted problem is refuted by a classical interpretation `J` iff `J`
+    satisfies the user-guide assumptions and, in a requested direction, is a stable model of one
+    program (read on that program's vocabulary, with `J`'s own input facts) and satisfies the
+    completed definitions of the other program's private predicates without being a stable model of
+    that program. (Uniqueness of the private extents, which turns the last clause into "the other
+    program cannot produce `J`'s public part", is not part of this theorem.) -/
+theorem external_refutes_programs (t : ExternalTask) (PL : Program) (hspec : t.specification = .inl PL)
+    (hph : t.userGuide.placeholders = []) (hpo : t.proofOutline = []) (hbyp : t.bypassTightness = false)
+    (fuel : Nat) (ps : List Problem) (h : externalProblems t fuel = .ok ps) :
+    ∃ ΓL ΓR, theoryTranslate t [] fuel PL = .ok ΓL ∧ theoryTranslate t [] fuel t.program = .ok ΓR ∧
+      (NoSymbolConflictExt t ΓL ΓR → ∀ (J : Interp) (ρ : Asg),
+        ((∃ P ∈ ps, Refutes J ρ P) ↔
+          (∀ a ∈ t.userGuide.formulas, a.role = .assumption → sat J a.formula ρ) ∧
+          (((t.direction = .universal ∨ t.direction = .forward) ∧
+              Stable PL t.userGuide.inputs (restrictTo (ext PL.preds t.userGuide.inputs) J.pred) J.fc ∧
+              (∀ a ∈ rightSide t ΓR, a.role = .assumption → sat J a.formula ρ) ∧
+              ¬ Stable t.program t.userGuide.inputs
+                (restrictTo (ext t.program.preds t.userGuide.inputs)
+                  (renamedInterp (t.specPrivate.filter (· ∈ t.progPrivate)) J.pred)) J.fc) ∨
+           ((t.direction = .universal ∨ t.direction = .backward) ∧
+              Stable t.program t.userGuide.inputs
+                (restrictTo (ext t.program.preds t.userGuide.inputs)
+                  (renamedInterp (t.specPrivate.filter (· ∈ t.progPrivate)) J.pred)) J.fc ∧
+              (∀ a ∈ leftSide t ΓL, a.role = .assumption → sat J a.formula ρ) ∧
+              ¬ Stable PL t.userGuide.inputs (restrictTo (ext PL.preds t.userGuide.inputs) J.pred) J.fc)))) := by
+  obtain ⟨hpre, ΓL, ΓR, hL, hR, hps⟩ := externalProblems_programs t PL hspec hph hpo fuel ps h
+  refine ⟨ΓL, ΓR, hL, hR, fun hnc J ρ => ?_⟩
+  obtain ⟨hncF, hncB⟩ := hnc
+  -- applicability facts
+  obtain ⟨hperr, hlerr⟩ := precheck_programs t PL hspec hpre
+  obtain ⟨htR, _, hinsR⟩ := C11.programError_none hperr
+  obtain ⟨htL, _, hinsL⟩ := C11.programError_none hlerr
+  have htR' : isTight t.program = true := htR.resolve_right (by simp [hbyp])
+  have htL' : isTight PL = true := htL.resolve_right (by simp [hbyp])
+  obtain ⟨hpL, ΓL0, hcL, hsemL⟩ := theoryTranslate_ok t fuel PL ΓL hL
+  obtain ⟨hpR, ΓR0, hcR, hsemR⟩ := theoryTranslate_ok t fuel t.program ΓR hR
+  -- the two sides
+  have huL : UnivSA (leftSide t ΓL) := fun a ha => ((controlTranslate_spec _ ΓL).1 a ha).2
+  have huR := rightSide_univ t ΓR
+  have hStL : (∀ a ∈ leftSide t ΓL, sat J a.formula ρ) ↔
+      Stable PL t.userGuide.inputs (restrictTo (ext PL.preds t.userGuide.inputs) J.pred) J.fc := by
+    rw [← completion_stable PL _ htL' hpL hinsL ΓL0 hcL J.pred J.fc ρ, ← hsemL ⟨J.pred, J.fc⟩ ρ]
+    constructor
+    · intro hh F hF
+      obtain ⟨a, ha, rfl⟩ := (controlTranslate_spec _ ΓL).2 F hF
+      exact hh a ha
+    · intro hh a ha
+      exact hh _ ((controlTranslate_spec _ ΓL).1 a ha).1
+  have hStR : (∀ a ∈ rightSide t ΓR, sat J a.formula ρ) ↔
+      Stable t.program t.userGuide.inputs (restrictTo (ext t.program.preds t.userGuide.inputs)
+        (renamedInterp (t.specPrivate.filter (· ∈ t.progPrivate)) J.pred)) J.fc := by
+    rw [← completion_stable t.program _ htR' hpR hinsR ΓR0 hcR _ J.fc ρ,
+      ← hsemR ⟨renamedInterp (t.specPrivate.filter (· ∈ t.progPrivate)) J.pred, J.fc⟩ ρ]
+    unfold rightSide
+    simp only [List.mem_map, forall_exists_index, and_imp, forall_apply_eq_imp_iff₂]
+    constructor
+    · intro hh F hF
+      obtain ⟨a, ha, rfl⟩ := (controlTranslate_spec _ ΓR).2 F hF
+      exact (sat_renamePreds _ J.pred J.fc a.formula ρ).mp (hh a ha)
+    · intro hh a ha
+      exact (sat_renamePreds _ J.pred J.fc a.formula ρ).mpr (hh _ ((controlTranslate_spec _ ΓR).1 a ha).1)
+  -- conjectures of a side
+  have hconj : ∀ (l : List SAnn), (∀ c ∈ (l.filter isSpec).flatMap (conjOf t.breakEq), c.role = .conjecture →
+      sat J c.formula ρ) ↔ ∀ a ∈ l, a.role = .spec → sat J a.formula ρ := by
+    intro l
+    simp only [List.mem_flatMap, List.mem_filter, forall_exists_index, and_imp]
+    constructor
+    · intro hh a ha hr
+      refine ((conjOf_sem J ρ t.breakEq a).2).mp fun c hc => ?_
+      exact hh c a ha (by simp [isSpec, hr]) hc ((conjOf_sem J ρ t.breakEq a).1 c hc)
+    · intro hh c a ha hs hc _
+      exact ((conjOf_sem J ρ t.breakEq a).2).mpr (hh a ha (by simpa [isSpec] using hs)) c hc
+  have hnoconj : ∀ (l : List AnnF), (∀ a ∈ l, a.role = .axiom) →
+      (∀ a ∈ l, a.role = .conjecture → sat J a.formula ρ) := by
+    intro l hl a ha hr
+    rw [hl a ha] at hr; cases hr
+  have hnoax : ∀ (l : List SAnn), ∀ c ∈ (l.filter isSpec).flatMap (conjOf t.breakEq), c.role = .axiom →
+      sat J c.formula ρ := by
+    intro l c hc hr
+    simp only [List.mem_flatMap] at hc
+    obtain ⟨a, _, hc⟩ := hc
+    rw [(conjOf_sem J ρ t.breakEq a).1 c hc] at hr; cases hr
+  have haxmap : ∀ (l : List SAnn), (∀ a ∈ l.map (·.toProblem .axiom), a.role = .axiom → sat J a.formula ρ) ↔
+      ∀ a ∈ l, sat J a.formula ρ := by
+    intro l
+    simp [SAnn.toProblem]
+  have haxroles : ∀ (l : List SAnn), ∀ a ∈ l.map (·.toProblem .axiom), a.role = .axiom := by
+    intro l a ha
+    obtain ⟨a0, _, rfl⟩ := List.mem_map.mp ha
+    rfl
+  have hfilt : ∀ (l : List SAnn) (p : SAnn → Bool) (r : SRole), (∀ a, p a = true ↔ a.role = r) →
+      ((∀ a ∈ l.filter p, sat J a.formula ρ) ↔ ∀ a ∈ l, a.role = r → sat J a.formula ρ) := by
+    intro l p r hp
+    simp only [List.mem_filter, and_imp]
+    exact forall_congr' fun a => imp_congr_right fun _ => by rw [hp a]
+  have hisA : ∀ a : SAnn, isAss a = true ↔ a.role = .assumption := fun a => by simp [isAss]
+  have hisS : ∀ a : SAnn, isSpec a = true ↔ a.role = .spec := fun a => by simp [isSpec]
+  -- the two families
+  have hF := mk_refutes J ρ "forward_problem" _ t.decomposition hncF
+  have hB := mk_refutes J ρ "backward_problem" _ t.decomposition hncB
+  have hsplitL := side_allTrue J ρ (leftSide t ΓL) huL
+  have hsplitR := side_allTrue J ρ (rightSide t ΓR) huR
+  -- the user-guide assumptions, as they appear in `stable`
+  have hug : (∀ a ∈ (t.userGuide.formulas.filter fun f => f.role = .assumption), sat J a.formula ρ) ↔
+      ∀ a ∈ t.userGuide.formulas, a.role = .assumption → sat J a.formula ρ := by
+    simp only [List.mem_filter, decide_eq_true_eq, and_imp]
+  have hstable : (∀ a ∈ (assembledPrograms t ΓL ΓR).stable, a.role = .axiom → sat J a.formula ρ) ↔
+      (∀ a ∈ t.userGuide.formulas, a.role = .assumption → sat J a.formula ρ) ∧
+      (∀ a ∈ leftSide t ΓL, a.role = .assumption → sat J a.formula ρ) ∧
+      (∀ a ∈ rightSide t ΓR, a.role = .assumption → sat J a.formula ρ) := by
+    unfold assembledPrograms
+    simp only [List.forall_mem_append, haxmap, hfilt _ _ _ hisA, hug, and_assoc]
+    rfl
+  have hstableC : ∀ a ∈ (assembledPrograms t ΓL ΓR).stable, a.role = .conjecture → sat J a.formula ρ := by
+    apply hnoconj
+    unfold assembledPrograms
+    simp only [List.forall_mem_append]
+    exact ⟨⟨haxroles _, haxroles _⟩, haxroles _⟩
+  have famF : (∃ P ∈ (mkProblem "forward_problem" [(assembledPrograms t ΓL ΓR).stable,
+        (assembledPrograms t ΓL ΓR).fwdPremises, [], (assembledPrograms t ΓL ΓR).fwdConclusions]).decompose
+        t.decomposition, Refutes J ρ P) ↔
+      (∀ a ∈ t.userGuide.formulas, a.role = .assumption → sat J a.formula ρ) ∧
+      Stable PL t.userGuide.inputs (restrictTo (ext PL.preds t.userGuide.inputs) J.pred) J.fc ∧
+      (∀ a ∈ rightSide t ΓR, a.role = .assumption → sat J a.formula ρ) ∧
+      ¬ Stable t.program t.userGuide.inputs (restrictTo (ext t.program.preds t.userGuide.inputs)
+        (renamedInterp (t.specPrivate.filter (· ∈ t.progPrivate)) J.pred)) J.fc := by
+    rw [hF]
+    simp only [List.forall_mem_cons, List.not_mem_nil, false_imp_iff, implies_true, and_true, true_and]
+    rw [hstable]
+    have h1 : (∀ a ∈ (assembledPrograms t ΓL ΓR).fwdPremises, a.role = .axiom → sat J a.formula ρ) ↔
+        ∀ a ∈ leftSide t ΓL, a.role = .spec → sat J a.formula ρ := by
+      unfold assembledPrograms
+      simp only [haxmap, hfilt _ _ _ hisS]
+      rfl
+    have h2 : ∀ a ∈ (assembledPrograms t ΓL ΓR).fwdConclusions, a.role = .axiom → sat J a.formula ρ :=
+      hnoax (rightSide t ΓR)
+    have h3 : ∀ a ∈ (assembledPrograms t ΓL ΓR).fwdPremises, a.role = .conjecture → sat J a.formula ρ :=
+      hnoconj _ (haxroles _)
+    have h4 : (∀ a ∈ (assembledPrograms t ΓL ΓR).fwdConclusions, a.role = .conjecture → sat J a.formula ρ) ↔
+        ∀ a ∈ rightSide t ΓR, a.role = .spec → sat J a.formula ρ := hconj (rightSide t ΓR)
+    rw [h1, h4]
+    rw [← hStL, ← hStR, hsplitL, hsplitR]
+    constructor
+    · rintro ⟨⟨⟨hu, hla, hra⟩, hls, _⟩, hn⟩
+      exact ⟨hu, ⟨hla, hls⟩, hra, fun hall => hn ⟨hstableC, h3, hall.2⟩⟩
+    · rintro ⟨hu, ⟨hla, hls⟩, hra, hn⟩
+      exact ⟨⟨⟨hu, hla, hra⟩, hls, h2⟩, fun hall => hn ⟨hra, hall.2.2⟩⟩
+  have famB : (∃ P ∈ (mkProblem "backward_problem" [(assembledPrograms t ΓL ΓR).stable,
+        (assembledPrograms t ΓL ΓR).bwdPremises, [], (assembledPrograms t ΓL ΓR).bwdConclusions]).decompose
+        t.decomposition, Refutes J ρ P) ↔
+      (∀ a ∈ t.userGuide.formulas, a.role = .assumption → sat J a.formula ρ) ∧
+      Stable t.program t.userGuide.inputs (restrictTo (ext t.program.preds t.userGuide.inputs)
+        (renamedInterp (t.specPrivate.filter (· ∈ t.progPrivate)) J.pred)) J.fc ∧
+      (∀ a ∈ leftSide t ΓL, a.role = .assumption → sat J a.formula ρ) ∧
+      ¬ Stable PL t.userGuide.inputs (restrictTo (ext PL.preds t.userGuide.inputs) J.pred) J.fc := by
+    rw [hB]
+    simp only [List.forall_mem_cons, List.not_mem_nil, false_imp_iff, implies_true, and_true, true_and]
+    rw [hstable]
+    have h1 : (∀ a ∈ (assembledPrograms t ΓL ΓR).bwdPremises, a.role = .axiom → sat J a.formula ρ) ↔
+        ∀ a ∈ rightSide t ΓR, a.role = .spec → sat J a.formula ρ := by
+      unfold assembledPrograms
+      simp only [haxmap, hfilt _ _ _ hisS]
+    have h2 : ∀ a ∈ (assembledPrograms t ΓL ΓR).bwdConclusions, a.role = .axiom → sat J a.formula ρ :=
+      hnoax (leftSide t ΓL)
+    have h3 : ∀ a ∈ (assembledPrograms t ΓL ΓR).bwdPremises, a.role = .conjecture → sat J a.formula ρ :=
+      hnoconj _ (haxroles _)
+    have h4 : (∀ a ∈ (assembledPrograms t ΓL ΓR).bwdConclusions, a.role = .conjecture → sat J a.formula ρ) ↔
+        ∀ a ∈ leftSide t ΓL, a.role = .spec → sat J a.formula ρ := hconj (leftSide t ΓL)
+    rw [h1, h4]
+    rw [← hStL, ← hStR, hsplitL, hsplitR]
+    constructor
+    · rintro ⟨⟨⟨hu, hla, hra⟩, hrs, _⟩, hn⟩
+      exact ⟨hu, ⟨hra, hrs⟩, hla, fun hall => hn ⟨hstableC, h3, hall.2⟩⟩
+    · rintro ⟨hu, ⟨hra, hrs⟩, hla, hn⟩
+      exact ⟨⟨⟨hu, hla, hra⟩, hrs, h2⟩, fun hall => hn ⟨hla, hall.2.2⟩⟩
+  rw [hps]
+  have hmemP : ∀ P, P ∈ assembledProblems (assembledPrograms t ΓL ΓR) {} t.decomposition t.direction ↔
+      ((t.direction = .universal ∨ t.direction = .forward) ∧
+        P ∈ (mkProblem "forward_problem" [(assembledPrograms t ΓL ΓR).stable,
+          (assembledPrograms t ΓL ΓR).fwdPremises, [], (assembledPrograms t ΓL ΓR).fwdConclusions]).decompose t.decomposition) ∨
+      ((t.direction = .universal ∨ t.direction = .backward) ∧
+        P ∈ (mkProblem "backward_problem" [(assembledPrograms t ΓL ΓR).stable,
+          (assembledPrograms t ΓL ΓR).bwdPremises, [], (assembledPrograms t ΓL ΓR).bwdConclusions]).decompose t.decomposition) := by
+    intro P
+    unfold assembledProblems
+    simp only [List.mem_append]
+    have e1 : ∀ ax, outlineProblems "forward" ax ({} : ProofOutline).forwardLemmas = [] := fun _ => rfl
+    have e2 : ∀ ax, outlineProblems "backward" ax ({} : ProofOutline).backwardLemmas = [] := fun _ => rfl
+    constructor
+    · rintro (hP | hP)
+      · split at hP
+        · rename_i hd
+          rw [e1] at hP
+          exact Or.inl ⟨hd, by simpa using hP⟩
+        · cases hP
+      · split at hP
+        · rename_i hd
+          rw [e2] at hP
+          exact Or.inr ⟨hd, by simpa using hP⟩
+        · cases hP
+    · rintro (⟨hd, hP⟩ | ⟨hd, hP⟩)
+      · left; rw [if_pos hd, e1]; simpa using hP
+      · right; rw [if_pos hd, e2]; simpa using hP
+  constructor
+  · rintro ⟨P, hP, href⟩
+    rcases (hmemP P).mp hP with ⟨hd, hP⟩ | ⟨hd, hP⟩
+    · obtain ⟨hu, h1, h2, h3⟩ := famF.mp ⟨P, hP, href⟩
+      exact ⟨hu, Or.inl ⟨hd, h1, h2, h3⟩⟩
+    · obtain ⟨hu, h1, h2, h3⟩ := famB.mp ⟨P, hP, href⟩
+      exact ⟨hu, Or.inr ⟨hd, h1, h2, h3⟩⟩
+  · rintro ⟨hu, ⟨hd, h1, h2, h3⟩ | ⟨hd, h1, h2, h3⟩⟩
+    · obtain ⟨P, hP, href⟩ := famF.mpr ⟨hu, h1, h2, h3⟩
+      exact ⟨P, (hmemP P).mpr (Or.inl ⟨hd, hP⟩), href⟩
+    · obtain ⟨P, hP, href⟩ := famB.mpr ⟨hu, h1, h2, h3⟩
+      exact ⟨P, (hmemP P).mpr (Or.inr ⟨hd, hP⟩), href⟩
 
 end Anthem
